@@ -316,8 +316,8 @@ def classify_trailing(geo: Geometry, E, L, spelling, survivors, missing, added, 
         and twin[1] == st[0] and st[0] < st[1]):
       keys.append((K_IMPLICIT_MOVE, {"moved": [m, twin]}))
     else:
-      keys.append((f"`{spelling}` on a {where} of a {kind} statement moves a {m[0]} error to another line "
-                   f"(delta {twin[1] - m[1]:+d})", {"moved": [m, twin]}))
+      keys.append((f"`{spelling}` on a {where} of a {kind} statement moves a {m[0]} error to another line",
+                   {"moved": [m, twin], "delta": twin[1] - m[1]}))
   for s in [x for x in survivors if x[0] in DIRECTOR_TIME_ERRORS]:
     keys.append((K_DIRECTOR_TIME, {"survivor": s}))
   for s in [x for x in survivors if x[0] not in DIRECTOR_TIME_ERRORS]:
@@ -340,8 +340,8 @@ def classify_trailing(geo: Geometry, E, L, spelling, survivors, missing, added, 
     else:
       rel = "same statement" if st and st[0] <= m[1] <= st[1] else "another statement"
       keys.append((f"`{spelling}` on a {where} of a {kind} statement removes a {m[0]} error on a different line "
-                   f"({rel}, delta {m[1] - L:+d}, class {'named' if named(m[0]) else 'NOT named'})",
-                   {"extra_removed": m}))
+                   f"({rel}, class {'named' if named(m[0]) else 'NOT named'})",
+                   {"extra_removed": m, "delta": m[1] - L}))
   for a in added_left:
     keys.append((f"`{spelling}` on a {where} of a {kind} statement adds a new {a[0]} error", {"added": a}))
   if stub_changed:
@@ -384,8 +384,8 @@ def classify_standalone(geo: Geometry, E, a, b, missing, added, stub_changed, su
       if implicit_move(m, twin):
         keys.append((K_IMPLICIT_MOVE, {"moved": [m, twin], "note": "stand-alone"}))
       else:
-        keys.append((f"stand-alone directive moves a {m[0]} error (delta {twin[1] - m[1]:+d} after renumbering)",
-                     {"moved": [m, twin]}))
+        keys.append((f"stand-alone directive moves a {m[0]} error to another line",
+                     {"moved": [m, twin], "delta_after_renumbering": twin[1] - m[1]}))
     else:
       missing_left.append(m)
   for s in survivors:
